@@ -70,6 +70,11 @@ func runRS(c *hx.Ctx, r rsCase, seq int) {
 	for attempt := 0; ; attempt++ {
 		j := startJitter()
 		impl := runRSOnce(c, r, seq*10+attempt)
+		if impl == "" && attempt < 4 { // the process did not come up (e.g. a probed free port was taken meanwhile)
+			j.worst()
+			c.Count("rs.restarted")
+			continue
+		}
 		if w := j.worst(); w > maxJitter && attempt < 4 {
 			c.Count("rs.repeated-after-stall")
 			continue
@@ -124,17 +129,24 @@ func runRSOnce(c *hx.Ctx, r rsCase, seq int) string {
 	}()
 	addr := fmt.Sprintf("127.0.0.1:%d", port)
 	var k cli
-	for i := 0; ; i++ {
+	cameUp := false
+	for dl := time.Now().Add(20 * time.Second); time.Now().Before(dl) && !cameUp; {
+		select {
+		case <-exited:
+			return "" // died during start-up
+		default:
+		}
 		if k, err = dialProto(r.proto, addr); err == nil {
 			if err = quick(k); err == nil {
+				cameUp = true
 				break
 			}
 			k.conn().Close()
 		}
-		if i > 200 {
-			panic(fmt.Sprintf("real mosn did not come up: %v", err))
-		}
 		time.Sleep(25 * time.Millisecond)
+	}
+	if !cameUp {
+		return ""
 	}
 	defer k.conn().Close()
 
